@@ -10,7 +10,10 @@ import (
 	"net/http/httptest"
 	"net/netip"
 	"net/url"
+	"runtime"
 	"sort"
+	"strings"
+	"sync"
 	"time"
 
 	"github.com/DataDog/datadog-traceroute/result"
@@ -140,6 +143,15 @@ func checkC15() fw.Check {
 				reqs = append(reqs, c15Req{proto: proto, q: 20, e: 0, failRuns: seq(19), fetcher: "none", reach: true, cancelAt: -1})
 			}
 			var cases []fw.Case
+			// real clock: a request in which end-to-end probes (and runs) fail must RETURN. If the aggregation blocks -
+			// e.g. a failing participant waits for a lock it already holds - the virtual clock cannot show it (the bubble
+			// stalls and the case watchdog ends the run as inconclusive); on the real clock the request, which needs
+			// about 0.3 s, is given 20 s.
+			for _, sh := range [][3]int{{0, 2, 1}, {2, 3, 2}, {1, 1, 1}} {
+				sh := sh
+				id := fmt.Sprintf("C15/realtime-failing/q%d-e%d-fail%d", sh[0], sh[1], sh[2])
+				cases = append(cases, fw.Case{ID: id, Run: func(c *fw.Ctx) { runC15RealtimeFailing(c, id, sh[0], sh[1], sh[2]) }})
+			}
 			for i, rq := range reqs {
 				rq := rq
 				id := fmt.Sprintf("C15/%d/%s/q%d-e%d-f%d-%d", i, rq.proto, rq.q, rq.e, len(rq.failRuns), len(rq.failE2e))
@@ -387,6 +399,79 @@ func runC15CaseR(c *fw.Ctx, id string, rq c15Req) (ran bool, rerrOut error) {
 	c.Count("successful_requests", 1)
 	c.Sample(map[string]any{"request": rq.String(), "runs": len(out.Traceroute.Runs), "rtts": out.E2eProbe.RTTs, "roles": fmt.Sprint(roles)})
 	return
+}
+
+// runC15RealtimeFailing: q runs and e end-to-end probes on the real clock (timeouts of 60 ms); the first nfail
+// end-to-end probes and the first run (if any) fail at their first send.
+func runC15RealtimeFailing(c *fw.Ctx, id string, q, e, nfail int) {
+	resetProcessState()
+	v := refmatch.VariantByName("udp4")
+	target := drive.TargetFor(v, 150+c.Worker)
+	params := traceroute.TracerouteParams{Hostname: target.String(), Port: 33434, Protocol: "udp", MinTTL: 1, MaxTTL: 3, Delay: 2,
+		Timeout: 60 * time.Millisecond, TracerouteQueries: q, E2eQueries: e}
+	env, err := newReqEnv(c, params, target, 33434, false)
+	if err != nil {
+		c.Inconclusive(err.Error())
+		return
+	}
+	// env is closed only if the request returned: a hung request still owns its handles
+	env.fetcher = &scriptedFetcher{ip: net.ParseIP("192.0.2.77")}
+	env.modelFor = func(k int, se *simEnv) *pathModel { return flowPath(k, se, 3, true, 300*time.Microsecond) }
+	var mu sync.Mutex
+	nE2e, nRun := 0, 0
+	env.onFlow = func(k int, se *simEnv) {
+		mu.Lock()
+		defer mu.Unlock()
+		if se.spec.MinTTL == se.spec.MaxTTL {
+			if nE2e < nfail {
+				env.w.PoisonHandle(se.handle, fmt.Errorf("sendto: %w", errInjected))
+			}
+			nE2e++
+		} else {
+			if nRun == 0 && q > 1 {
+				env.w.PoisonHandle(se.handle, fmt.Errorf("sendto: %w", errInjected))
+			}
+			nRun++
+		}
+	}
+	type outcome struct {
+		out *result.Results
+		err error
+	}
+	done := make(chan outcome, 1)
+	t0 := time.Now()
+	go func() {
+		o, rerr := env.run(context.Background())
+		done <- outcome{o, rerr}
+	}()
+	select {
+	case r := <-done:
+		env.close()
+		c.Count("realtime_failing_request_ms", int(time.Since(t0).Milliseconds()))
+		c.Nontrivial(fmt.Sprintf("realtime-failing/q%d-e%d", q, e))
+		if r.err == nil {
+			c.Violate("C15", "failure-masked/realtime", fmt.Sprintf("%s: %d end-to-end probe(s) failed but the request succeeded", id, nfail), nil)
+		} else if r.out != nil {
+			c.Violate("C15", "result-and-error", id+": both a result and an error", nil)
+		} else if !errors.Is(r.err, errInjected) {
+			c.Violate("C15", "failure-not-exposed/realtime", fmt.Sprintf("%s: the error does not expose the injected failure: %v", id, r.err), nil)
+		}
+	case <-time.After(20 * time.Second):
+		c.Violate("C15", "request-never-returns/failing-e2e", fmt.Sprintf("%s: RunTraceroute with %d failing end-to-end probe(s) had not returned after 20 s of real time (the request needs about 0.3 s): neither a result nor an error", id, nfail), string(stackOfRepo()))
+	}
+}
+
+func stackOfRepo() []byte {
+	buf := make([]byte, 1<<20)
+	n := runtime.Stack(buf, true)
+	var out []byte
+	for _, g := range strings.Split(string(buf[:n]), "\n\n") {
+		if strings.Contains(g, "github.com/DataDog/datadog-traceroute/traceroute.") {
+			out = append(out, g[:min(len(g), 1500)]...)
+			out = append(out, '\n', '\n')
+		}
+	}
+	return out[:min(len(out), 6000)]
 }
 
 func failKinds(rq c15Req) string {
